@@ -6,11 +6,15 @@ import logging
 import sys
 import warnings
 
-assert any(p.rstrip('/') == '/repo' for p in sys.path), "edzed must be imported from /repo"
+import os as _os
+# the tree under verification: /repo, always, for the registered commands; VERIF_REPO is set only by
+# tools/seed_eval*.sh to evaluate a seeded change in a scratch worktree instead of patching /repo
+REPO = _os.environ.get('VERIF_REPO', '/repo').rstrip('/')
+assert any(p.rstrip('/') == REPO for p in sys.path), f"edzed must be imported from {REPO}"
 import edzed                                           # noqa: E402
 from edzed import simulator as _sim                    # noqa: E402
 
-assert edzed.__file__.startswith('/repo/'), edzed.__file__
+assert edzed.__file__.startswith(REPO + '/'), edzed.__file__
 
 _done = False
 
